@@ -13,6 +13,7 @@
 #include "sinks/iodevicesink.cpp"
 #include "sinks/filesink.cpp"
 #include "sinks/rotatingfilesink.cpp"
+#define VF_HAVE_FILESINKS 1
 #include "vf_rest_of_repo.h"
 #include "../FS/vf_env.h"
 using namespace QtLogger;
